@@ -337,6 +337,21 @@ def main(modname):
                          % (r.get("why"), json.dumps(r.get("cex"), default=str)[:600], r.get("replay_detail")))
         for c in canary_fail:
             lines.append("HARNESS-ERROR: canary %s not detected/replayed: %s" % (c["name"], json.dumps(c, default=str)[:600]))
+    elif tier == "thorough" and res.inconclusive and all("solver unknown" in str(r.get("why")) for r in res.inconclusive):
+        # thorough tier only: on some paths the solver gave no answer within its time limit (two solver configurations tried).
+        # Nothing is claimed for those paths (listed in the evidence, exhaustive = false); every decided path held.
+        status = "held-partial"
+        undecided = {}
+        for r in res.inconclusive:
+            key = json.dumps(r.get("cfg"), default=str)[:200]
+            undecided[key] = undecided.get(key, 0) + 1
+        lines.append("PARTIAL: %d paths undecided by the solver within %d s per query (two configurations) in %d explorations; those paths are NOT "
+                     "claimed (see coverage.paths_undecided)" % (len(res.inconclusive), 120, len(undecided)))
+        for key, n_ in sorted(undecided.items())[:6]:
+            lines.append("  undecided: %d paths of %s" % (n_, key))
+        if res.open_prefixes:
+            lines.append("PARTIAL: time budget of %ds ended with %d unexplored prefixes in %d of %d explorations; those bounds are NOT claimed "
+                         "(see coverage.jobs_incomplete)" % (budget_s, res.open_prefixes, len(res.incomplete_jobs), len(cfgs)))
     elif res.inconclusive or (res.open_prefixes and tier == "quick"):
         status, rc = "inconclusive", 2
         for r in res.inconclusive[:3]:
@@ -379,6 +394,7 @@ def main(modname):
             "jobs_incomplete": [{k: v for k, v in cfgs[i].items() if not (k in ("graph", "base") and isinstance(v, list))} for i in res.incomplete_jobs],
             "per_job": [dict(cfg={k: v for k, v in cfgs[i].items() if not (k == "graph" and isinstance(v, list))}, **res.per_job.get(i, {})) for i in range(len(cfgs))],
             "known_findings_witnessed": sorted(kf_seen),
+            "paths_undecided": [{"cfg": {k: v for k, v in (r.get("cfg") or {}).items() if not (k in ("graph", "base") and isinstance(v, list))}, "why": str(r.get("why"))[:200]} for r in res.inconclusive[:200]],
             "stubs": getattr(mod, "STUBS", []),
             "status": status,
         },
